@@ -1030,11 +1030,15 @@ func walkBinary(e *ast.BinaryExpr) (has6, has7, has8 bool, maxProblem int) {
 // single, longer operator: `<` before `-` (`<-`), and `<`, `>` or `!`
 // before an operator starting with `=` (`<=`, `>=`, `!=`).
 func unaryOpMergesWithOperand(op token.Token, operand ast.Expr) bool {
-	inner, ok := operand.(*ast.UnaryExpr)
-	if !ok {
-		return false
+	var lead string
+	switch x := operand.(type) {
+	case *ast.UnaryExpr:
+		lead = x.Op.String()
+	case *ast.BasicLit:
+		// A negative number built as a single literal, as the exporter
+		// does for bounds such as `< -1`.
+		lead = x.Value
 	}
-	lead := inner.Op.String()
 	if lead == "" {
 		return false
 	}
